@@ -69,6 +69,8 @@ def cells(s: str) -> int:
 # ------------------------------------------------------------------------------------------------ leaves
 LEAF_STR = ["", "a", "hello world", "it's", 'say "hi"', "both ' and \"", "line1\nline2", "tab\there", "日本語",
             "ｗｉｄｅ wide", "🙂 ok", "café", "back\\slash", "x" * 30, "word " * 9, "}{][)(,", "\x1b[0m", "é"]
+# width-table boundary code points (last of a range / single-code-point ranges)
+LEAF_STR += ["\U0001f64f\U0001f64f\U0001f64f", "\u2705 done", "\ud7a3\uff60", "\u23f0\u2728"]
 LEAF_BYTES = [b"", b"abc", b"\x00\xff", b"it's", b"new\nline", b"y" * 25]
 LEAF_INT = [0, 1, -1, 7, 42, 255, 1000000, -12345678901234567890]
 LEAF_FLOAT = [0.0, -0.0, 1.5, -2.25, 3.14159, 1e100, 1e-07]
